@@ -324,6 +324,26 @@ def _transform(dst, how):
                 new = rename_private_defs(src, priv)
             elif how == 'tails':
                 new = extract_tails(src)
+            elif how == 'flags':
+                new = forelse_to_flags(src)
+            elif how == 'nestguards':
+                new = nest_guards(src)
+            elif how == 'ifexpstmt':
+                new = ifexp_to_statements(src)
+            elif how == 'ctorcomps':
+                new = comps_to_constructors(src)
+            elif how == 'calltables':
+                new = calls_to_table_loops(src)
+            elif how == 'guards':
+                new = guard_clauses(src)
+            elif how == 'nameargs':
+                new = name_call_arguments(src)
+            elif how == 'lambdas':
+                new = hoist_module_lambdas(src)
+            elif how == 'dictloops':
+                new = dictcomps_to_loops(src)
+            elif how == 'fstrings':
+                new = format_to_fstrings(src)
             elif how == 'shift':
                 # push every line down (line numbers change, nothing else)
                 new = '# moved\n' * 7 + src if not src.startswith('#!') else \
@@ -505,6 +525,570 @@ def extract_tails(src):
     return ast.unparse(ast.fix_missing_locations(tree)) + '\n'
 
 
+def forelse_to_flags(src):
+    """`for ...: ... break ... else: BODY` -> a flag set before every `break`
+    of that loop and tested after it."""
+    import ast
+    tree = ast.parse(src)
+    n = [0]
+
+    def breaks_of(loop):
+        out = []
+
+        def rec(stmts):
+            for i, st in enumerate(stmts):
+                if isinstance(st, ast.Break):
+                    out.append((stmts, i))
+                if isinstance(st, (ast.For, ast.While, ast.FunctionDef,
+                                   ast.AsyncFunctionDef, ast.ClassDef)):
+                    continue
+                for fld in ('body', 'orelse', 'finalbody'):
+                    sub = getattr(st, fld, None)
+                    if isinstance(sub, list) and sub and isinstance(
+                            sub[0], ast.stmt):
+                        rec(sub)
+                for h in getattr(st, 'handlers', []) or []:
+                    rec(h.body)
+        rec(loop.body)
+        return out
+
+    for holder in ast.walk(tree):
+        for fld in ('body', 'orelse', 'finalbody'):
+            stmts = getattr(holder, fld, None)
+            if not (isinstance(stmts, list) and stmts and isinstance(
+                    stmts[0], ast.stmt)):
+                continue
+            i = 0
+            while i < len(stmts):
+                lp = stmts[i]
+                if isinstance(lp, (ast.For, ast.While)) and lp.orelse:
+                    brk = breaks_of(lp)
+                    if brk:
+                        n[0] += 1
+                        flag = '_brk%d' % n[0]
+                        for lst, j in sorted(brk, key=lambda x: -x[1]):
+                            lst.insert(j, ast.Assign(
+                                targets=[ast.Name(id=flag, ctx=ast.Store())],
+                                value=ast.Constant(value=True)))
+                        body = lp.orelse
+                        lp.orelse = []
+                        stmts[i:i + 1] = [
+                            ast.Assign(targets=[ast.Name(id=flag,
+                                                         ctx=ast.Store())],
+                                       value=ast.Constant(value=False)),
+                            lp,
+                            ast.If(test=ast.UnaryOp(
+                                op=ast.Not(), operand=ast.Name(
+                                    id=flag, ctx=ast.Load())),
+                                body=body, orelse=[])]
+                        i += 3
+                        continue
+                i += 1
+    return ast.unparse(ast.fix_missing_locations(tree)) + '\n'
+
+
+def format_to_fstrings(src):
+    """`'a%sb' % x`, `'a%sb%s' % (x, y)` and `'a{}b'.format(x)` -> f-strings
+    (plain %s / {} placeholders only)."""
+    import ast
+    import re as _re
+    tree = ast.parse(src)
+
+    def simple(e):
+        # what may sit inside the braces of an f-string on every Python >= 3.8
+        s = ast.unparse(e)
+        return '\\' not in s and '\n' not in s and not any(
+            isinstance(x, (ast.Lambda, ast.Yield, ast.Await, ast.NamedExpr,
+                           ast.JoinedStr, ast.Starred)) for x in ast.walk(e))
+
+    class T(ast.NodeTransformer):
+        def visit_BinOp(self, n):
+            self.generic_visit(n)
+            if isinstance(n.op, ast.Mod) and isinstance(
+                    n.left, ast.Constant) and isinstance(n.left.value, str):
+                t = n.left.value
+                if _re.search(r'%[^s%]', t) or '{' in t or '}' in t:
+                    return n
+                args = list(n.right.elts) if isinstance(
+                    n.right, ast.Tuple) else [n.right]
+                parts = _re.split(r'(%s|%%)', t)
+                if parts.count('%s') != len(args) or isinstance(
+                        n.right, (ast.Dict, ast.Name, ast.Call,
+                                  ast.Attribute, ast.Subscript)) and \
+                        parts.count('%s') != 1:
+                    return n
+                if not isinstance(n.right, ast.Tuple) and not isinstance(
+                        n.right, (ast.Constant, ast.Name, ast.Attribute,
+                                  ast.Subscript, ast.Call, ast.BinOp)):
+                    return n
+                if isinstance(n.right, (ast.Name, ast.Attribute,
+                                        ast.Subscript, ast.Call)):
+                    return n   # could be a tuple at run time
+                if not all(simple(a) for a in args):
+                    return n
+                vals, k = [], 0
+                for p_ in parts:
+                    if p_ == '%s':
+                        vals.append(ast.FormattedValue(
+                            value=args[k], conversion=-1, format_spec=None))
+                        k += 1
+                    elif p_ == '%%':
+                        vals.append(ast.Constant(value='%'))
+                    elif p_:
+                        vals.append(ast.Constant(value=p_))
+                return ast.copy_location(ast.JoinedStr(values=vals), n)
+            return n
+
+        def visit_Call(self, n):
+            self.generic_visit(n)
+            if isinstance(n.func, ast.Attribute) and n.func.attr == 'format' \
+                    and isinstance(n.func.value, ast.Constant) and isinstance(
+                    n.func.value.value, str) and not n.keywords and not any(
+                    isinstance(a, ast.Starred) for a in n.args):
+                t = n.func.value.value
+                if _re.search(r'\{[^{}]+\}', t) or '{{' in t or '}}' in t:
+                    return n
+                parts = _re.split(r'(\{\})', t)
+                if parts.count('{}') != len(n.args) or not all(
+                        simple(a) for a in n.args):
+                    return n
+                vals, k = [], 0
+                for p_ in parts:
+                    if p_ == '{}':
+                        vals.append(ast.FormattedValue(
+                            value=n.args[k], conversion=-1, format_spec=None))
+                        k += 1
+                    elif p_:
+                        vals.append(ast.Constant(value=p_))
+                return ast.copy_location(ast.JoinedStr(values=vals), n)
+            return n
+
+    tree = T().visit(tree)
+    return ast.unparse(ast.fix_missing_locations(tree)) + '\n'
+
+
+def hoist_module_lambdas(src):
+    """Every lambda written in a module-level statement (registration tables,
+    keyword arguments of the wrappers, default values of module-level
+    functions) becomes a named module-level function defined just before."""
+    import ast
+    tree = ast.parse(src)
+    n = [0]
+    out = []
+
+    class T(ast.NodeTransformer):
+        def __init__(self):
+            self.defs = []
+
+        def visit_Lambda(self, lam):
+            self.generic_visit(lam)
+            n[0] += 1
+            name = '_lam%d_h8' % n[0]
+            self.defs.append(ast.FunctionDef(
+                name=name, args=lam.args,
+                body=[ast.Return(value=lam.body)], decorator_list=[],
+                returns=None, type_comment=None))
+            return ast.copy_location(ast.Name(id=name, ctx=ast.Load()), lam)
+
+        def visit_FunctionDef(self, fn):
+            # only what is evaluated when the def statement runs
+            fn.args.defaults = [self.visit(d) for d in fn.args.defaults]
+            fn.args.kw_defaults = [self.visit(d) if d is not None else None
+                                   for d in fn.args.kw_defaults]
+            fn.decorator_list = [self.visit(d) for d in fn.decorator_list]
+            return fn
+
+        def visit_ClassDef(self, c):
+            return c      # class bodies see class-level names: left alone
+
+    for st in tree.body:
+        t = T()
+        st2 = t.visit(st)
+        out.extend(t.defs)
+        out.append(st2)
+    tree.body = out
+    return ast.unparse(ast.fix_missing_locations(tree)) + '\n'
+
+
+def dictcomps_to_loops(src):
+    """`name = {k: v for x in it if c}` (statement level, one generator) ->
+    `name = {}` and a loop with item assignments."""
+    import ast
+    tree = ast.parse(src)
+
+    class T(ast.NodeTransformer):
+        def visit_Assign(self, n):
+            v = n.value
+            if len(n.targets) == 1 and isinstance(
+                    n.targets[0], ast.Name) and isinstance(
+                    v, ast.DictComp) and len(v.generators) == 1 and \
+                    not v.generators[0].is_async:
+                g = v.generators[0]
+                name = n.targets[0].id
+                used = {x.id for x in ast.walk(v) if isinstance(x, ast.Name)}
+                if name in used:
+                    return n
+                store = ast.Assign(targets=[ast.Subscript(
+                    value=ast.Name(id=name, ctx=ast.Load()), slice=v.key,
+                    ctx=ast.Store())], value=v.value)
+                body = [store]
+                for c in reversed(g.ifs):
+                    body = [ast.If(test=c, body=body, orelse=[])]
+                loop = ast.For(target=g.target, iter=g.iter, body=body,
+                               orelse=[], type_comment=None)
+                init = ast.Assign(targets=[ast.Name(id=name, ctx=ast.Store())],
+                                  value=ast.Dict(keys=[], values=[]))
+                return [ast.copy_location(init, n), ast.copy_location(loop, n)]
+            return n
+
+        def visit_ClassDef(self, c):
+            self.generic_visit(c)
+            return c
+
+    # only inside functions: at module / class level the loop variables would
+    # become module / class attributes
+    class F(ast.NodeTransformer):
+        def visit_FunctionDef(self, fn):
+            fn.body = [x for st in fn.body for x in (
+                lambda r: r if isinstance(r, list) else [r])(T().visit(st))]
+            return fn
+
+    tree = F().visit(tree)
+    return ast.unparse(ast.fix_missing_locations(tree)) + '\n'
+
+
+def guard_clauses(src):
+    """`if c: <ends in return/raise/continue/break> else: B` -> the `if`
+    without else, followed by B; `if c: A else: <ends in ...>` -> `if not c:
+    <...>` followed by A."""
+    import ast
+    tree = ast.parse(src)
+
+    def term(stmts):
+        return bool(stmts) and isinstance(
+            stmts[-1], (ast.Return, ast.Raise, ast.Continue, ast.Break))
+
+    def do(stmts):
+        out = []
+        for st in stmts:
+            for fld in ('body', 'orelse', 'finalbody'):
+                sub = getattr(st, fld, None)
+                if isinstance(sub, list) and sub and isinstance(
+                        sub[0], ast.stmt):
+                    setattr(st, fld, do(sub))
+            for h in getattr(st, 'handlers', []) or []:
+                h.body = do(h.body)
+            if isinstance(st, ast.If) and st.orelse and term(st.body):
+                rest, st.orelse = st.orelse, []
+                out.append(st)
+                out.extend(rest)
+            elif isinstance(st, ast.If) and st.orelse and term(st.orelse):
+                rest = st.body
+                st.test = ast.UnaryOp(op=ast.Not(), operand=st.test)
+                st.body, st.orelse = st.orelse, []
+                out.append(st)
+                out.extend(rest)
+            else:
+                out.append(st)
+        return out
+
+    tree.body = do(tree.body)
+    return ast.unparse(ast.fix_missing_locations(tree)) + '\n'
+
+
+def name_call_arguments(src):
+    """`f(g(x), y)` as a whole statement -> `_t1 = g(x)` / `f(_t1, y)`: the
+    first argument that is itself a call gets a name (functions only)."""
+    import ast
+    tree = ast.parse(src)
+    n = [0]
+
+    def do(stmts):
+        out = []
+        for st in stmts:
+            for fld in ('body', 'orelse', 'finalbody'):
+                sub = getattr(st, fld, None)
+                if isinstance(sub, list) and sub and isinstance(
+                        sub[0], ast.stmt) and not isinstance(
+                        st, ast.ClassDef):
+                    setattr(st, fld, do(sub))
+            for h in getattr(st, 'handlers', []) or []:
+                h.body = do(h.body)
+            call = None
+            if isinstance(st, (ast.Expr, ast.Return)) and isinstance(
+                    st.value, ast.Call):
+                call = st.value
+            elif isinstance(st, ast.Assign) and isinstance(
+                    st.value, ast.Call) and len(st.targets) == 1 and \
+                    isinstance(st.targets[0], ast.Name):
+                call = st.value
+            if call is not None and isinstance(
+                    call.func, (ast.Name, ast.Attribute)) and call.args and \
+                    isinstance(call.args[0], ast.Call) and not any(
+                    isinstance(x, (ast.Yield, ast.YieldFrom, ast.Await,
+                                   ast.NamedExpr, ast.Starred))
+                    for x in ast.walk(call)) and not (
+                    isinstance(call.func, ast.Name) and
+                    call.func.id in ('super', 'locals', 'vars')):
+                n[0] += 1
+                t = '_t%d_n9' % n[0]
+                out.append(ast.Assign(
+                    targets=[ast.Name(id=t, ctx=ast.Store())],
+                    value=call.args[0]))
+                call.args[0] = ast.Name(id=t, ctx=ast.Load())
+            out.append(st)
+        return out
+
+    class F(ast.NodeTransformer):
+        def visit_FunctionDef(self, fn):
+            self.generic_visit(fn)
+            fn.body = do(fn.body)
+            return fn
+
+    tree = F().visit(tree)
+    return ast.unparse(ast.fix_missing_locations(tree)) + '\n'
+
+
+def comps_to_constructors(src):
+    """`[e for ..]` -> `list(e for ..)`, `{e for ..}` -> `set(e for ..)`,
+    `{k: v for ..}` -> `dict((k, v) for ..)` inside functions (where the
+    builtins are not shadowed)."""
+    import ast
+    tree = ast.parse(src)
+    shadow = {n.id for n in ast.walk(tree) if isinstance(n, ast.Name)
+              and isinstance(n.ctx, ast.Store)} | {
+        a.arg for a in ast.walk(tree) if isinstance(a, ast.arg)}
+
+    class T(ast.NodeTransformer):
+        def visit_ListComp(self, n):
+            self.generic_visit(n)
+            if 'list' in shadow:
+                return n
+            return ast.copy_location(ast.Call(
+                func=ast.Name(id='list', ctx=ast.Load()),
+                args=[ast.GeneratorExp(elt=n.elt, generators=n.generators)],
+                keywords=[]), n)
+
+        def visit_SetComp(self, n):
+            self.generic_visit(n)
+            if 'set' in shadow:
+                return n
+            return ast.copy_location(ast.Call(
+                func=ast.Name(id='set', ctx=ast.Load()),
+                args=[ast.GeneratorExp(elt=n.elt, generators=n.generators)],
+                keywords=[]), n)
+
+        def visit_DictComp(self, n):
+            self.generic_visit(n)
+            if 'dict' in shadow:
+                return n
+            return ast.copy_location(ast.Call(
+                func=ast.Name(id='dict', ctx=ast.Load()),
+                args=[ast.GeneratorExp(elt=ast.Tuple(
+                    elts=[n.key, n.value], ctx=ast.Load()),
+                    generators=n.generators)], keywords=[]), n)
+
+    class F(ast.NodeTransformer):
+        def visit_FunctionDef(self, fn):
+            fn.body = [T().visit(st) for st in fn.body]
+            return fn
+
+        def visit_ClassDef(self, c):
+            self.generic_visit(c)
+            return c
+
+    tree = F().visit(tree)
+    return ast.unparse(ast.fix_missing_locations(tree)) + '\n'
+
+
+def calls_to_table_loops(src):
+    """A run of two or more consecutive call statements with the same callee
+    and the same argument layout becomes a loop over a table of the
+    arguments (inside functions; arguments that are constants, names or
+    attribute chains only)."""
+    import ast
+    tree = ast.parse(src)
+    n = [0]
+
+    def simple(e):
+        return isinstance(e, (ast.Constant, ast.Name)) or (
+            isinstance(e, ast.Attribute) and simple(e.value)) or (
+            isinstance(e, (ast.List, ast.Tuple)) and all(
+                simple(x) for x in e.elts))
+
+    def layout(st):
+        if not (isinstance(st, ast.Expr) and isinstance(st.value, ast.Call)):
+            return None
+        c = st.value
+        if not isinstance(c.func, (ast.Name, ast.Attribute)) or any(
+                isinstance(a, ast.Starred) for a in c.args) or any(
+                k.arg is None for k in c.keywords):
+            return None
+        vals = list(c.args) + [k.value for k in c.keywords]
+        if not vals or not all(simple(v) for v in vals):
+            return None
+        return (ast.dump(c.func), len(c.args),
+                tuple(k.arg for k in c.keywords))
+
+    def do(stmts):
+        out, i = [], 0
+        while i < len(stmts):
+            st = stmts[i]
+            for fld in ('body', 'orelse', 'finalbody'):
+                sub = getattr(st, fld, None)
+                if isinstance(sub, list) and sub and isinstance(
+                        sub[0], ast.stmt) and not isinstance(
+                        st, ast.ClassDef):
+                    setattr(st, fld, do(sub))
+            for h in getattr(st, 'handlers', []) or []:
+                h.body = do(h.body)
+            lay = layout(st)
+            j = i + 1
+            while lay is not None and j < len(stmts) and \
+                    layout(stmts[j]) == lay:
+                j += 1
+            if lay is not None and j - i >= 2:
+                run = stmts[i:j]
+                c0 = run[0].value
+                nv = len(c0.args) + len(c0.keywords)
+                # columns that differ become loop variables
+                cols = []
+                for k in range(nv):
+                    vals = [(list(r.value.args) + [kw.value for kw in
+                                                   r.value.keywords])[k]
+                            for r in run]
+                    if len({ast.dump(v) for v in vals}) > 1:
+                        cols.append(k)
+                if cols:
+                    n[0] += 1
+                    names = ['_c%d_%d_l5' % (n[0], k) for k in cols]
+                    rows = []
+                    for r in run:
+                        vals = list(r.value.args) + [
+                            kw.value for kw in r.value.keywords]
+                        row = [vals[k] for k in cols]
+                        rows.append(ast.Tuple(elts=row, ctx=ast.Load())
+                                    if len(row) > 1 else row[0])
+                    import copy
+                    call = copy.deepcopy(c0)
+                    for nm, k in zip(names, cols):
+                        ref = ast.Name(id=nm, ctx=ast.Load())
+                        if k < len(call.args):
+                            call.args[k] = ref
+                        else:
+                            call.keywords[k - len(call.args)].value = ref
+                    target = ast.Tuple(elts=[ast.Name(id=x, ctx=ast.Store())
+                                             for x in names],
+                                       ctx=ast.Store()) if len(names) > 1 \
+                        else ast.Name(id=names[0], ctx=ast.Store())
+                    out.append(ast.For(
+                        target=target,
+                        iter=ast.Tuple(elts=rows, ctx=ast.Load()),
+                        body=[ast.Expr(value=call)], orelse=[],
+                        type_comment=None))
+                    i = j
+                    continue
+            out.append(st)
+            i += 1
+        return out
+
+    class F(ast.NodeTransformer):
+        def visit_FunctionDef(self, fn):
+            self.generic_visit(fn)
+            fn.body = do(fn.body)
+            return fn
+
+    tree = F().visit(tree)
+    return ast.unparse(ast.fix_missing_locations(tree)) + '\n'
+
+
+def nest_guards(src):
+    """The reverse of guard clauses: `if c: <return/raise/continue/break>`
+    followed by more statements of the same block -> `if c: ... else: <the
+    rest>` (innermost first)."""
+    import ast
+    tree = ast.parse(src)
+
+    def term(stmts):
+        return bool(stmts) and isinstance(
+            stmts[-1], (ast.Return, ast.Raise, ast.Continue, ast.Break))
+
+    def do(stmts):
+        for st in stmts:
+            for fld in ('body', 'orelse', 'finalbody'):
+                sub = getattr(st, fld, None)
+                if isinstance(sub, list) and sub and isinstance(
+                        sub[0], ast.stmt):
+                    setattr(st, fld, do(sub))
+            for h in getattr(st, 'handlers', []) or []:
+                h.body = do(h.body)
+        for i in range(len(stmts) - 1, -1, -1):
+            st = stmts[i]
+            if isinstance(st, ast.If) and not st.orelse and term(st.body) \
+                    and i + 1 < len(stmts):
+                st.orelse = stmts[i + 1:]
+                stmts = stmts[:i + 1]
+        return stmts
+
+    class F(ast.NodeTransformer):
+        def visit_FunctionDef(self, fn):
+            self.generic_visit(fn)
+            fn.body = do(fn.body)
+            return fn
+
+    tree = F().visit(tree)
+    return ast.unparse(ast.fix_missing_locations(tree)) + '\n'
+
+
+def ifexp_to_statements(src):
+    """`x = a if c else b` (plain name target, inside functions) -> an
+    if/else statement with two assignments; `return a if c else b` -> two
+    returns."""
+    import ast
+    import copy
+    tree = ast.parse(src)
+
+    def do(stmts):
+        out = []
+        for st in stmts:
+            for fld in ('body', 'orelse', 'finalbody'):
+                sub = getattr(st, fld, None)
+                if isinstance(sub, list) and sub and isinstance(
+                        sub[0], ast.stmt) and not isinstance(
+                        st, ast.ClassDef):
+                    setattr(st, fld, do(sub))
+            for h in getattr(st, 'handlers', []) or []:
+                h.body = do(h.body)
+            if isinstance(st, ast.Assign) and len(st.targets) == 1 and \
+                    isinstance(st.targets[0], ast.Name) and isinstance(
+                    st.value, ast.IfExp) and not any(
+                    isinstance(x, ast.Name) and x.id == st.targets[0].id
+                    for x in ast.walk(st.value.test)):
+                v = st.value
+                out.append(ast.If(test=v.test, body=[ast.Assign(
+                    targets=copy.deepcopy(st.targets), value=v.body)],
+                    orelse=[ast.Assign(targets=copy.deepcopy(st.targets),
+                                       value=v.orelse)]))
+            elif isinstance(st, ast.Return) and isinstance(
+                    st.value, ast.IfExp):
+                v = st.value
+                out.append(ast.If(test=v.test,
+                                  body=[ast.Return(value=v.body)],
+                                  orelse=[ast.Return(value=v.orelse)]))
+            else:
+                out.append(st)
+        return out
+
+    class F(ast.NodeTransformer):
+        def visit_FunctionDef(self, fn):
+            self.generic_visit(fn)
+            fn.body = do(fn.body)
+            return fn
+
+    tree = F().visit(tree)
+    return ast.unparse(ast.fix_missing_locations(tree)) + '\n'
+
+
 def rename_import_aliases(src):
     """`import numpy as np` -> `import numpy as np_al9` (and every use): a
     behaviour-preserving edit that defeats rules matching `np.` as text."""
@@ -624,7 +1208,10 @@ def run_for_property(prop, repo, seed=0, jobs=None):
     variants = [v for v in load_variants() if v['property'] == prop]
     # two whole-tree behaviour-preserving rewrites for every property
     for how in ('unparse', 'shift', 'rename', 'alias', 'kwcalls', 'swapif',
-                'splitassign', 'comp2loop', 'joinassign', 'renamepriv'):
+                'splitassign', 'comp2loop', 'joinassign', 'renamepriv',
+                'flags', 'fstrings', 'lambdas', 'dictloops', 'guards',
+                'nestguards', 'nameargs', 'ctorcomps', 'calltables',
+                'ifexpstmt'):
         variants.append({'id': '%s-benign-%s-all' % (prop.lower(), how),
                          'property': prop, 'kind': 'benign', 'edits': [],
                          'transform': how, 'expect': None, 'clears': None,
